@@ -127,6 +127,16 @@ func (c c02) sessions(tier string) []c02Case {
 			out = append(out, c02Case{Name: fmt.Sprintf("i-deletes-of-flushed-keys-mem%d", mem), Mode: mode, Sess: mkDBSession(tiny, ops...)})
 		}
 	}
+	{
+		// enough rotations for the table and WAL file numbers to reach two digits (naming / ordering of what recovery finds)
+		tiny := sess.Cfg{Mem: 1, Thresh: 100, Ratio: 1.0, RBuf: 4096, WBuf: 4096, Async: async}
+		var ops []sess.Op
+		for i := 0; i < 12; i++ {
+			ops = append(ops, sess.Op{Op: "put", K: crashKeys[i%3], V: []string{"x", "y", "z", "w"}[i%4]})
+		}
+		ops = append(ops, sess.Op{Op: "del", K: "b"}, cl)
+		out = append(out, c02Case{Name: "i-twelve-rotations", Mode: mode, Sess: mkDBSession(tiny, ops...)})
+	}
 	// (iii) two-session history
 	{
 		c2 := small
